@@ -77,13 +77,14 @@ func FindMinBy[T constraints.Ordered](s []T, fn func(val T) T) T {
 // FindMinByKey finds the minimum value from a map by using some existing key as a parameter.
 func FindMinByKey[K comparable, T constraints.Ordered](mapSlice []map[K]T, key K) (T, error) {
 	var min T
+	if len(mapSlice) == 0 {
+		return min, nil
+	}
+
 	if _, ok := mapSlice[0][key]; !ok {
 		return min, errors.New("key not found")
 	}
-
-	if len(mapSlice) > 0 {
-		min = mapSlice[0][key]
-	}
+	min = mapSlice[0][key]
 
 	for _, m := range mapSlice {
 		mapped := FindByKey(m, func(k K) bool {
@@ -134,13 +135,14 @@ func FindMaxBy[T constraints.Ordered](s []T, fn func(val T) T) T {
 // FindMaxByKey finds the maximum value from a map by using some existing key as a parameter.
 func FindMaxByKey[K comparable, T constraints.Ordered](mapSlice []map[K]T, key K) (T, error) {
 	var max T
+	if len(mapSlice) == 0 {
+		return max, nil
+	}
+
 	if _, ok := mapSlice[0][key]; !ok {
 		return max, errors.New("key not found")
 	}
-
-	if len(mapSlice) > 0 {
-		max = mapSlice[0][key]
-	}
+	max = mapSlice[0][key]
 
 	for _, m := range mapSlice {
 		mapped := FindByKey(m, func(k K) bool {
